@@ -745,6 +745,20 @@ func (env *Env) callExpr(e *SExpr) Val {
 					}
 				}
 				env.fail("len of %s", x.typ)
+			case "waitsOn":
+				// only at a select anchor: the select has a receive case on this channel
+				x := env.eval(e.Args[0])
+				if env.fr == nil {
+					env.fail("waitsOn outside a function")
+				}
+				var ds []T
+				for _, c := range env.fr.selWaits {
+					ds = append(ds, eq(c, x.t))
+				}
+				if len(ds) == 0 {
+					return Val{t: tFalse, typ: types.Typ[types.Bool]}
+				}
+				return Val{t: or(ds...), typ: types.Typ[types.Bool]}
 			case "typeis":
 				x := env.eval(e.Args[0])
 				ty := env.resolveType(e.Args[1].typeText())
